@@ -30,18 +30,34 @@ type solverSpec struct {
 var solvers = []solverSpec{
 	{"z3-new", func(f string, t int) []string { return []string{"z3-new", fmt.Sprintf("-T:%d", t), f} }},
 	{"z3", func(f string, t int) []string { return []string{"z3", fmt.Sprintf("-T:%d", t), f} }},
+	{"z3-new-euf", func(f string, t int) []string {
+		return []string{"z3-new", "sat.euf=true", "tactic.default_tactic=smt", fmt.Sprintf("-T:%d", t), f}
+	}},
 	{"cvc5", func(f string, t int) []string {
 		return []string{"cvc5", fmt.Sprintf("--tlimit=%d", t*1000), "--produce-models", f}
 	}},
 }
 
-var solveSem = make(chan struct{}, 6)
+var solveSem = make(chan struct{}, 16)
 
 // Solve races the installed solvers on script; the first definite verdict wins.
 func Solve(script string, dir, tag string, timeoutS int) SolveResult {
+	return Solve2(script, "", dir, tag, timeoutS)
+}
+
+// Solve2 additionally races a weaker variant of the script (recursive functions unfolded a fixed
+// number of times): only its "unsat" counts.
+func Solve2(script, weak string, dir, tag string, timeoutS int) SolveResult {
 	file := filepath.Join(dir, tag+".smt2")
 	if err := os.WriteFile(file, []byte(script), 0o644); err != nil {
 		return SolveResult{Verdict: "error", Output: err.Error()}
+	}
+	weakFile := ""
+	if weak != "" && weak != script {
+		weakFile = filepath.Join(dir, tag+".weak.smt2")
+		if err := os.WriteFile(weakFile, []byte(weak), 0o644); err != nil {
+			weakFile = ""
+		}
 	}
 	// cvc5 wants produce-models before set-logic: it is first in our script already.
 	ctx, cancel := context.WithCancel(context.Background())
@@ -49,11 +65,30 @@ func Solve(script string, dir, tag string, timeoutS int) SolveResult {
 	type res struct {
 		r SolveResult
 	}
-	ch := make(chan SolveResult, len(solvers))
-	var wg sync.WaitGroup
+	type job struct {
+		sp   solverSpec
+		file string
+		weak bool
+	}
+	var jobs []job
 	for _, sp := range solvers {
-		sp := sp
-		if sp.name == "cvc5" && strings.Contains(script, "(lambda") {
+		jobs = append(jobs, job{sp, file, false})
+	}
+	if weakFile != "" {
+		for _, sp := range solvers {
+			jobs = append(jobs, job{sp, weakFile, true})
+		}
+	}
+	ch := make(chan SolveResult, len(jobs))
+	var wg sync.WaitGroup
+	for _, jb := range jobs {
+		sp := jb.sp
+		jb := jb
+		scr := script
+		if jb.weak {
+			scr = weak
+		}
+		if sp.name == "cvc5" && strings.Contains(scr, "(lambda") {
 			ch <- SolveResult{Verdict: "unknown", Solver: sp.name}
 			continue
 		}
@@ -66,7 +101,7 @@ func Solve(script string, dir, tag string, timeoutS int) SolveResult {
 				ch <- SolveResult{Verdict: "unknown", Solver: sp.name, Output: "cancelled"}
 				return
 			}
-			a := sp.args(file, timeoutS)
+			a := sp.args(jb.file, timeoutS)
 			c, cc := context.WithTimeout(ctx, time.Duration(timeoutS+2)*time.Second)
 			defer cc()
 			cmd := exec.CommandContext(c, a[0], a[1:]...)
@@ -78,6 +113,9 @@ func Solve(script string, dir, tag string, timeoutS int) SolveResult {
 			secs := time.Since(t0).Seconds()
 			o := out.String()
 			r := SolveResult{Solver: sp.name, Secs: secs, Output: o}
+			if jb.weak {
+				r.Solver += "/unfolded"
+			}
 			first := strings.TrimSpace(strings.SplitN(o, "\n", 2)[0])
 			switch {
 			case strings.Contains(o, "(error") && first != "unsat" && first != "sat":
@@ -107,6 +145,11 @@ func Solve(script string, dir, tag string, timeoutS int) SolveResult {
 					r.Verdict = "error"
 				}
 			}
+			if jb.weak && r.Verdict == "sat" {
+				// a model of the weaker script decides nothing
+				r.Verdict = "unknown"
+				r.Raw = nil
+			}
 			ch <- r
 		}()
 	}
@@ -114,7 +157,7 @@ func Solve(script string, dir, tag string, timeoutS int) SolveResult {
 	best.Verdict = "unknown"
 	got := 0
 	var outs []string
-	for got < len(solvers) {
+	for got < len(jobs) {
 		r := <-ch
 		got++
 		outs = append(outs, fmt.Sprintf("[%s %s %.2fs] %s", r.Solver, r.Verdict, r.Secs, trunc(r.Output, 300)))
